@@ -336,6 +336,9 @@ def run_check(mod, tier, seed, replay=None):
     # 2. stages
     budget_s = float(os.environ.get("VERIF_BUDGET_S", "0")) or getattr(mod, "BUDGET_S", {}).get(tier, 0)
     stage_list = mod.stages(ctx)
+    only = os.environ.get("VERIF_ONLY_STAGES")  # developer switch (never set by the registered commands)
+    if only:
+        stage_list = [s_ for s_ in stage_list if s_.name in only.split(",")]
     for stage in stage_list:
         ts = time.time()
         nw = stage.workers or NWORKERS
@@ -443,14 +446,14 @@ def run_check(mod, tier, seed, replay=None):
         if e["status"] == "known":
             print("KNOWN-FINDING: property=%s %s [bucket=%s; seen %d time(s) this run]"
                   % (prop, e["what"], e["bucket"], total.excluded.get(e["bucket"], 0)))
-    if missing:
-        print("HARNESS-ERROR: essential case classes empty: %s" % missing)
-        return 2
     if violations:
         for b, path, detail in violations:
             print("VIOLATION property=%s replay=%s" % (prop, path))
             print("  bucket=%s detail=%s" % (b, str(detail)[:400]))
         return 1
+    if missing and not only:
+        print("HARNESS-ERROR: essential case classes empty: %s" % missing)
+        return 2
     return 0
 
 
